@@ -22,7 +22,9 @@ def check(pid, category, text, note, technique, design):
     }
 
 
-exec(open(os.path.join(V, 'tools', 'manifest_table.py')).read())
+for fn in sorted(os.listdir(os.path.join(V, 'tools', 'manifest'))):
+    if fn.endswith('.py'):
+        exec(open(os.path.join(V, 'tools', 'manifest', fn)).read())
 
 props = [json.loads(l)['id'] for l in open(os.path.join(V, 'properties.jsonl'))]
 for p in props:
